@@ -1,7 +1,7 @@
 (* C16 — property theorems only.  Proofs are in C16/Proofs.v.
    `wf` = context types have unique keys (a BTreeMap in the code); `wfv` likewise for context values. *)
 From Coq Require Import List NArith Bool Arith.
-From DV Require Import C16.Model C16.Proofs.
+From DV Require Import C16.Model C16.Proofs C16.Rel.
 Import ListNotations.
 
 Theorem C16_equiv_refl : forall t, wf t = true -> equivalent t t = true.
@@ -64,6 +64,75 @@ Example C16_nonvacuous :
   wf a = true /\ wf b = true /\ conformant a b = true /\ conformant b a = false /\ equivalent a b = false.
 Proof. exact nonvacuous_types. Qed.
 
+(* ---------- fuel (audit problem 12): equiv / conf / teqb are transliterated with fuel and answer false when it runs out.
+   Once the fuel covers the two types more fuel changes nothing, and the common value is the saturated function
+   (equivalent / conformant) that every theorem above is about; C16_fuel_needed shows the bound matters. ---------- *)
+Theorem C16_equiv_fuel_adequate : forall f k a b, size a + size b <= f -> equiv (f + k) a b = equiv f a b.
+Proof. exact equiv_fuel_add. Qed.
+Theorem C16_conf_fuel_adequate : forall f k a b, S (size a + size b) <= f -> conf (f + k) a b = conf f a b.
+Proof. exact conf_fuel_add. Qed.
+Theorem C16_type_eq_fuel_adequate : forall f k a b, size a + size b <= f -> teqb (f + k) a b = teqb f a b.
+Proof. exact teqb_fuel_add. Qed.
+Theorem C16_equiv_saturated : forall f a b, size a + size b <= f -> equiv f a b = equivalent a b.
+Proof. exact equivalent_saturated. Qed.
+Theorem C16_conf_saturated : forall f a b, S (size a + size b) <= f -> conf f a b = conformant a b.
+Proof. exact conformant_saturated. Qed.
+Example C16_fuel_needed :
+  let t := TList (TList (TS SNumber)) in
+  conformant t t = true /\ equivalent t t = true /\ conf 2 t t = false /\ equiv 2 t t = false /\
+  size t + size t = 6 /\ conf 7 t t = true /\ equiv 6 t t = true.
+Proof. exact fuel_needed. Qed.
+
+(* ---------- the relation without fuel: Conf is an inductive relation (coq/C16/Rel.v) whose rules are the sentences of the
+   property; the implementation's relation decides it, and the preorder / variance statements hold of it ---------- *)
+Theorem C16_conformant_iff_Conf : forall a b, wf a = true -> wf b = true -> (conformant a b = true <-> Conf a b).
+Proof. exact conformant_iff_Conf. Qed.
+Theorem C16_conf_decides_Conf : forall f a b, wf a = true -> wf b = true -> S (size a + size b) <= f ->
+  (conf f a b = true <-> Conf a b).
+Proof. exact conf_decides_Conf. Qed.
+Theorem C16_Conf_refl : forall t, wf t = true -> Conf t t.
+Proof. exact Conf_refl. Qed.
+Theorem C16_Conf_trans : forall a b c, Conf a b -> Conf b c -> Conf a c.
+Proof. exact Conf_trans. Qed.
+Theorem C16_Conf_null_bottom_any_top : forall t, Conf (TS SNull) t /\ Conf t (TS SAny).
+Proof. exact (fun t => conj (CNull t) (CAny t)). Qed.
+Theorem C16_Conf_list_covariant : forall a b, Conf (TList a) (TList b) <-> Conf a b.
+Proof. exact Conf_list. Qed.
+Theorem C16_Conf_range_covariant : forall a b, Conf (TRange a) (TRange b) <-> Conf a b.
+Proof. exact Conf_range. Qed.
+Theorem C16_Conf_context_covariant : forall ea eb,
+  Conf (TCtx ea) (TCtx eb) <-> (forall k tb, In (k, tb) eb -> exists ta, lookup k ea = Some ta /\ Conf ta tb).
+Proof. exact Conf_context. Qed.
+Theorem C16_Conf_function_variance : forall pa ra pb rb,
+  Conf (TFun pa ra) (TFun pb rb) <-> Forall2 Conf pb pa /\ Conf ra rb.
+Proof. exact Conf_function. Qed.
+Theorem C16_equiv_only_mutually_Conf : forall a b, wf a = true -> wf b = true -> equivalent a b = true -> Conf a b /\ Conf b a.
+Proof. exact equivalent_Conf. Qed.
+Example C16_Conf_nonvacuous :
+  let a := TFun [TS SAny; TCtx [(1%N, TS SNumber)]] (TList (TS SNull)) in
+  let b := TFun [TS SNumber; TCtx [(1%N, TS SNumber); (2%N, TS SString)]] (TList (TS SDate)) in
+  Conf a b /\ ~ Conf b a.
+Proof. exact Conf_nonvacuous. Qed.
+
+(* ---------- coercion as ONE equation (audit problem 6): coerced_spec T v = the first of  v, [v], (x when v = [x])  whose
+   type conforms to T, else null (Definition coerced_spec / candidates in coq/C16/Rel.v, written with `find`, without
+   looking at the branches of the model's coerced) ---------- *)
+Theorem C16_coerced_characterisation : forall T v, wf T = true -> wfv v = true -> coerced T v = coerced_spec T v.
+Proof. exact coerced_is_spec. Qed.
+Theorem C16_coerced_cases : forall T v, wf T = true -> wfv v = true ->
+  (conformant (type_of v) T = true -> coerced T v = v) /\
+  (conformant (type_of v) T = false -> conformant (type_of (VList [v])) T = true -> coerced T v = VList [v]) /\
+  (forall x, v = VList [x] -> conformant (type_of v) T = false -> conformant (type_of (VList [v])) T = false ->
+     conformant (type_of x) T = true -> coerced T v = x) /\
+  ((forall c, In c (candidates v) -> conformant (type_of c) T = false) -> coerced T v = VNull).
+Proof. exact coerced_spec_cases. Qed.
+Example C16_coerced_spec_nonvacuous :
+  let n := VAtom SNumber 1%N in
+  coerced_spec (TS SNumber) n = n /\ coerced_spec (TList (TS SNumber)) n = VList [n] /\
+  coerced_spec (TS SNumber) (VList [n]) = n /\ coerced_spec (TS SString) n = VNull /\
+  coerced_spec (TList (TList (TList (TS SNumber)))) (VList [VList [n]]) = VList [VList [VList [n]]].
+Proof. exact coerced_spec_nonvacuous. Qed.
+
 Print Assumptions C16_equiv_refl.
 Print Assumptions C16_equiv_sym.
 Print Assumptions C16_equiv_trans.
@@ -85,3 +154,23 @@ Print Assumptions C16_coerced_idempotent.
 Print Assumptions C16_equiv_orig_refuted.
 Print Assumptions C16_coerced_orig_refuted.
 Print Assumptions C16_nonvacuous.
+Print Assumptions C16_equiv_fuel_adequate.
+Print Assumptions C16_conf_fuel_adequate.
+Print Assumptions C16_type_eq_fuel_adequate.
+Print Assumptions C16_equiv_saturated.
+Print Assumptions C16_conf_saturated.
+Print Assumptions C16_fuel_needed.
+Print Assumptions C16_conformant_iff_Conf.
+Print Assumptions C16_conf_decides_Conf.
+Print Assumptions C16_Conf_refl.
+Print Assumptions C16_Conf_trans.
+Print Assumptions C16_Conf_null_bottom_any_top.
+Print Assumptions C16_Conf_list_covariant.
+Print Assumptions C16_Conf_range_covariant.
+Print Assumptions C16_Conf_context_covariant.
+Print Assumptions C16_Conf_function_variance.
+Print Assumptions C16_equiv_only_mutually_Conf.
+Print Assumptions C16_Conf_nonvacuous.
+Print Assumptions C16_coerced_characterisation.
+Print Assumptions C16_coerced_cases.
+Print Assumptions C16_coerced_spec_nonvacuous.
